@@ -36,12 +36,19 @@ SPEC = dict(
          "server-final, empty challenge, success bare / with right / with wrong data, failure, failure-aborted, continue, unknown) "
          "plus success carrying the mechanism's FIRST challenge (13 symbols) for SCRAM-SHA-1 and DIGEST-MD5, up to 2 for the other SCRAM hashes, up to 3 over 8 symbols for PLAIN and HT, plus seeded "
          "random longer sequences over all mechanisms; per element: handled/sent bytes/result compared with the model. "
+         "(d) FAST tokens across connections: one QXmppConfiguration + FastTokenManager wired as in QXmppOutgoingClient, a fresh "
+         "Sasl2Manager per login; ALL op sequences to length 4 (quick) / 5 (thorough) over 12 symbols (replace credentials with/without "
+         "password and stored token for 3 mechanisms, login with 5 server offers incl. no <fast/> feature and FAST disabled, success "
+         "with/without a new token, failure) plus random sequences to length 17; per op the sent <authenticate/> (mechanism, initial "
+         "response, <request-token/>), the stored token (mechanism, secret) and tokenChanged() are compared with the model. "
          "A sequence is non-trivial when it yields >= 2 distinct observations. Oracle, independent of the model: reference RFC 5802 "
          "server, RFC 2831 formulas and strict directive parser, RFC 4616 and XEP-0484 messages written in the harness with "
          "QCryptographicHash/QMessageAuthenticationCode/QPasswordDigestor; same password accepted, other password rejected; "
          "SCRAM login reported successful only if the correct server signature reached the client, DIGEST-MD5 login only if the "
          "correct rspauth did; DIGEST-MD5 response-value checked against RFC 2831 incl. its ISO 8859-1 rule for Latin-1 representable "
-         "credentials; reserved SCRAM attribute m= must be refused. Harness built with ASan+UBSan.",
+         "credentials; reserved SCRAM attribute m= must be refused; honest SCRAM exchanges also with extension attributes after i= (AuthMessage = "
+         "server-first message as sent); FAST: a server-side ledger (token -> mechanism it was issued for: the <request-token/> of "
+         "that login, else the HT mechanism used) — every HT login must announce that mechanism and send user NUL HMAC_hash(token, Initiator). Harness built with ASan+UBSan.",
     trusted_base=[
         "Lean 4.33.0 kernel; axioms per theorem listed under coverage.theorems (subset of propext, Classical.choice, Quot.sound)",
         "hand-written model lean/Qx/Model/C06Sasl.lean (clients, parseGS2, QByteArray::toInt, DIGEST-MD5 grammar, managers), tied to "
@@ -62,7 +69,9 @@ SPEC = dict(
         "the oracle checks rejection under a different password/token for every generated case",
         "'the server proved knowledge of the password' = it presented HMAC(ServerKey, AuthMessage) (unforgeability of HMAC is the "
         "named assumption behind that reading)",
-        "mechanism choice, channel binding (HT -ENDP/-UNIQ/-EXPR, SCRAM-PLUS) and FAST token rotation are outside this property",
+        "mechanism choice (C05), channel binding (HT -ENDP/-UNIQ/-EXPR, SCRAM-PLUS), token expiry and invalidation are outside this "
+        "property; FAST theorems assume the application does not replace the credentials while a login is pending and stores a token "
+        "together with the mechanism it was issued for",
         "iteration counts above INT_MAX are refused by the client (toInt); theorems carry 1 <= i <= 2^31-1",
         "DIGEST-MD5: the client always announces charset=utf-8 (also when the server did not offer it; RFC 2831 then means "
         "ISO 8859-1) — the DIGEST theorems carry Ref.digestEnc x = x (ASCII, or beyond U+00FF) for user, realm, password; the "
@@ -74,7 +83,8 @@ SPEC = dict(
                "value and accepted by a reference server; PLAIN = RFC 4616 (other password rejected), HT = XEP-0484; "
                "parseMessage(serializeMessage m) = m for every QMap with token keys; FULL success_only_after_server_proof for every "
                "server script and both managers (repaired tree: commits 0b21ae7, 43097ab, aca51c7; the old witnesses stay in the corpus). "
-               "digest_success_only_after_rspauth (every script, both managers) and scram_rejects_reserved_m (repaired tree: 8012ab0, ff6a7ed). "
+               "FAST across connections: stored token always filed under the issuing mechanism, next login announces it and HMACs with its "
+               "hash (any history without credential replacement during a pending login). digest_success_only_after_rspauth (every script, both managers) and scram_rejects_reserved_m (repaired tree: 8012ab0, ff6a7ed). "
                "Defect theorems with witnesses (recorded findings, fixes not applied): Latin-1 credentials hashed as UTF-8, unquoted "
                "DIGEST-MD5 directives. "
                "Model tied to the real clients and managers by byte-exact correspondence.",
